@@ -262,8 +262,8 @@ def main(argv):
                 try:
                     def _still_fails(l):
                         fl_ = exec_lines(mod, [l], 1)[0]
-                        if 'EXC:AssertionError' in fl_ and 'EXC:AssertionError' not in v[1]:
-                            return False      # the shrunk line violates a precondition of the harness itself
+                        if 'EXC:' in fl_ and 'EXC:' not in v[1]:
+                            return False      # the shrunk line fails differently (e.g. it violates a precondition of the harness itself)
                         return judge([fl_])[0][0][1:2] == '0'
                     line = shr(line, _still_fails)
                 except Exception:
